@@ -732,15 +732,16 @@ func (e *Exec) evalBinary(st *State, x *ast.BinaryExpr) Term {
 		l := e.eval(st, x.X)
 		// the right operand is evaluated only when needed: its obligations are under that condition
 		saved := st.pc
+		e.syncCtx(saved.S)
+		n0 := len(e.assumps)
 		if x.Op == token.LAND {
 			e.addPC(st, l)
 		} else {
 			e.addPC(st, Not(l))
 		}
-		nh := len(st.heap)
 		r := e.eval(st, x.Y)
-		_ = nh
 		st.pc = saved
+		e.reparentSince(n0, saved.S)
 		if x.Op == token.LAND {
 			return e.bindLocal("b", And(l, r))
 		}
@@ -1034,10 +1035,9 @@ func (e *Exec) needBitAxioms() {
 		return
 	}
 	e.mark("ax:bits")
-	e.assumps = append(e.assumps,
-		"(assert (forall ((a Int) (b Int)) (! (=> (and (>= a 0) (>= b 0)) (and (>= (uf_and a b) 0) (<= (uf_and a b) a) (<= (uf_and a b) b))) :pattern ((uf_and a b)))))",
-		"(assert (forall ((a Int) (b Int)) (! (=> (and (>= a 0) (>= b 0)) (and (>= (uf_or a b) a) (>= (uf_or a b) b) (<= (uf_or a b) (+ a b)))) :pattern ((uf_or a b)))))",
-		"(assert (forall ((a Int) (b Int)) (! (=> (and (>= a 0) (>= b 0)) (and (>= (uf_xor a b) 0) (<= (uf_xor a b) (+ a b)))) :pattern ((uf_xor a b)))))")
+	e.globalAxiom("(assert (forall ((a Int) (b Int)) (! (=> (and (>= a 0) (>= b 0)) (and (>= (uf_and a b) 0) (<= (uf_and a b) a) (<= (uf_and a b) b))) :pattern ((uf_and a b)))))")
+	e.globalAxiom("(assert (forall ((a Int) (b Int)) (! (=> (and (>= a 0) (>= b 0)) (and (>= (uf_or a b) a) (>= (uf_or a b) b) (<= (uf_or a b) (+ a b)))) :pattern ((uf_or a b)))))")
+	e.globalAxiom("(assert (forall ((a Int) (b Int)) (! (=> (and (>= a 0) (>= b 0)) (and (>= (uf_xor a b) 0) (<= (uf_xor a b) (+ a b)))) :pattern ((uf_xor a b)))))")
 }
 
 // convert implements the Go conversion T(v).
